@@ -198,7 +198,7 @@ type Case struct {
 	M     int    `json:"m"`
 	Init  []Op   `json:"init"`  // applied sequentially before the goroutines are released
 	G     [][]Op `json:"g"`     // one list per goroutine
-	Procs []int  `json:"procs"` // GOMAXPROCS of repetition r is Procs[r % len]
+	Procs []int  `json:"procs"` // GOMAXPROCS of repetition r is Procs[(r/2) % len] (r % len in TestC16Mixed)
 }
 
 // ---------------------------------------------------------------------------- observations
